@@ -370,6 +370,7 @@ func checkCase(c *Case, count bool) (err error) {
 	}
 	// serve: middleware chain = global then route; ClientIP uses the route's resolver inside the route handler
 	host, path := instantiate(c.Pattern)
+	path = strings.ReplaceAll(path, "%", "%25") // a literal '%' of the pattern travels percent-encoded in the request target
 	trace = trace[:0]
 	req := httptest.NewRequest("GET", "http://"+hostOr(host)+path, nil)
 	w := httptest.NewRecorder()
@@ -475,6 +476,14 @@ func TestOptionSequences(t *testing.T) {
 			if ref.ValidPattern(c.Pattern, 65535, 65535) && !strings.Contains(c.Pattern, "//") {
 				break
 			}
+		}
+		// (only behind plain text: a byte such as '!' makes net/url keep the target in RawPath, where the percent sign reads %25)
+		plain := strings.IndexFunc(c.Pattern, func(r rune) bool {
+			return !(r >= 'a' && r <= 'z' || r >= 'A' && r <= 'Z' || r >= '0' && r <= '9' || strings.ContainsRune("/{}*._-", r))
+		}) < 0
+		if ws := ref.Wildcards(c.Pattern); plain && gen.Chance(t, 1, 4, "percent") && (len(ws) == 0 || !ws[len(ws)-1].CatchAll || ws[len(ws)-1].End != len(c.Pattern)) {
+			// static text with a literal percent sign (a discount, an already escaped byte): text like any other
+			c.Pattern = strings.TrimSuffix(c.Pattern, "/") + gen.Pick(t, []string{"/100%sure", "/50%/x", "/a%2Fb", "/%d%v%w"}, "percenttext")
 		}
 		if gen.Chance(t, 1, 3, "update") {
 			c.DoUpd, c.Update = true, genOpts(t, true, "u")
